@@ -430,6 +430,8 @@ func main() {
 	switch *prop {
 	case "C16":
 		c16Main(r)
+	case "C17":
+		c17Main(r)
 	default:
 		hx.EngineError("unknown -prop %s", *prop)
 	}
